@@ -345,7 +345,7 @@ fn programs(tier: Tier) -> Vec<Program> {
     for b in ["S1", "S2", "UE", "TE"] {
         let unrel = if b == "UE" { None } else { Some("deny_unknown_fields") };
         let unrel_not_deny = Some("error = Err2");
-        for p in [["bogus"], ["bogus = 1"], ["rename = \"x\""], ["default"], ["skip"], ["map = fmap"], ["Rename_all = camelCase"]] {
+        for p in [["bogus"], ["bogus = 1"], ["rename = \"x\""], ["default"], ["skip"], ["map = fmap"], ["Rename_all = camelCase"], ["reñame_all = camelCase"], ["αβ"], ["тег = \"t\""], ["é"], ["r"]] {
             poison_at(o, b, c, "container", &format!("unknown container attribute `{}`", p[0]), &p, unrel, tier);
         }
         for p in [
@@ -461,7 +461,7 @@ fn programs(tier: Tier) -> Vec<Program> {
     for (b, vi) in [("UE", 0usize), ("UE", 1), ("TE", 0), ("TE", 1)] {
         let pos = Pos::Member(vi);
         let unrel = Some("rename_all = lowercase");
-        for p in [["bogus"], ["default"], ["skip"], ["tag = \"x\""], ["error = Err2"], ["deny_unknown_fields"], ["Rename = \"x\""]] {
+        for p in [["bogus"], ["default"], ["skip"], ["tag = \"x\""], ["error = Err2"], ["deny_unknown_fields"], ["Rename = \"x\""], ["reñame = \"x\""], ["αβ"], ["имя"], ["r"]] {
             poison_at(o, b, pos, "variant", &format!("unknown variant attribute `{}`", p[0]), &p, unrel, tier);
         }
         for p in [["rename = \"x\"", "rename = \"x\""], ["rename = \"x\"", "rename = \"y\""]] {
@@ -480,7 +480,7 @@ fn programs(tier: Tier) -> Vec<Program> {
     // ----- field level -----
     for (b, pos) in [("S1", Pos::Member(0)), ("S2", Pos::Member(1)), ("S3", Pos::Member(0)), ("TE", Pos::Inner(1, 0)), ("TE", Pos::Inner(1, 1))] {
         let unrel = Some("needs_predicate");
-        for p in [["bogus"], ["rename_all = camelCase"], ["tag = \"t\""], ["deny_unknown_fields"], ["validate = val -> Cerr"], ["Default"], ["flatten"]] {
+        for p in [["bogus"], ["rename_all = camelCase"], ["tag = \"t\""], ["deny_unknown_fields"], ["validate = val -> Cerr"], ["Default"], ["flatten"], ["reñame = \"x\""], ["défaut"], ["αβ"], ["ск"], ["日本"], ["d"]] {
             poison_at(o, b, pos, "field", &format!("unknown field attribute `{}`", p[0]), &p, unrel, tier);
         }
         for p in [
